@@ -50,3 +50,42 @@ HARNESS(h_escape) {
   P(ok && p == w, "escape output has no raw '/', '~' only as ~0/~1, and un-escapes to the input");
   WIT(w == 2 * N);
 }
+
+/* ---------------- K14.4: add / add_if_absent / replace / remove through a one-token pointer: exactly the RFC 6901 / RFC 6902 edit happens, or an error leaves the target untouched ---------------- */
+#ifndef WHICH
+#define WHICH 0
+#endif
+enum { OP_APPEND = 1, OP_INSERT, OP_ERASE_AT, OP_ASSIGN_AT, OP_INSERT_OR_ASSIGN, OP_ERASE_KEY, OP_TRY_EMPLACE };
+u32 n_ops, op_kind; u64 op_index; int op_key_ok;
+void mj_op(u32 kind, u64 index, u8* key, u64 keylen) { n_ops++; op_kind = kind; op_index = index; op_key_ok = (keylen == N); for (int k = 0; k < N; k++) if (key && (u64)k < keylen && key[k] != cur_tok[k]) op_key_ok = 0; }
+HARNESS(h_edit) {
+  HAVOC_ARR(IN_s, N); HAVOC(IN_kind); HAVOC(IN_size); HAVOC(IN_has_key); HAVOC(IN_create);
+  ASSUME(IN_kind <= 2 && IN_has_key <= 1 && IN_create <= 1 && IN_size < 0xffffffffffffff00ULL);
+  u8* s = malloc(N ? N : 1); ASSUME(s != 0); if (N) memcpy(s, IN_s, N); cur_tok = s;
+  mj_kind = IN_kind; mj_size = IN_size; mj_has_key = IN_has_key; n_at_index = n_at_key = n_emplace = 0; key_ok = 1; n_ops = 0; op_kind = 0; op_index = 0; op_key_ok = 1;
+  IRC_THROW_ALLOWED = 0;
+  u32 ec = k_edit1(WHICH, s, N, IN_create);
+  if (IN_kind == 1) {
+    u128 v = 0; int g = ref_index(s, N, &v); int dash = (N == 1 && s[0] == '-');
+    if (WHICH == 0 || WHICH == 1) {            /* add / add_if_absent: "-" and index == size append, index < size inserts (shifting), index > size is an error */
+      if (dash) P(ec == 0 && n_ops == 1 && op_kind == OP_APPEND, "'-' appends");
+      else if (!g) P(ec == E_INVALID_INDEX && n_ops == 0, "not an RFC 6901 array-index: invalid_index, nothing modified");
+      else if (v > (u128)IN_size) P(ec == E_INDEX_EXCEEDS && n_ops == 0, "index > size: index_exceeds_array_size, nothing modified");
+      else if (v == (u128)IN_size) P(ec == 0 && n_ops == 1 && op_kind == OP_APPEND, "index == size appends (RFC 6902 add)");
+      else if (WHICH == 0) P(ec == 0 && n_ops == 1 && op_kind == OP_INSERT && op_index == (u64)v, "index < size inserts before that element");
+      else P((ec == 0 && n_ops == 1 && op_kind == OP_INSERT && op_index == (u64)v) || (ec != 0 && n_ops == 0), "add_if_absent: inserts at the index or reports an error without modifying");
+    } else {                                   /* replace / remove: the element must exist */
+      if (dash) P(ec == E_INDEX_EXCEEDS && n_ops == 0, "'-' addresses no existing element");
+      else if (!g) P(ec == E_INVALID_INDEX && n_ops == 0, "not an RFC 6901 array-index: invalid_index, nothing modified");
+      else if (v >= (u128)IN_size) P(ec == E_INDEX_EXCEEDS && n_ops == 0, "index >= size: index_exceeds_array_size, nothing modified");
+      else if (WHICH == 2) P(ec == 0 && n_ops == 1 && op_kind == OP_ASSIGN_AT && op_index == (u64)v, "replace assigns exactly that element");
+      else P(ec == 0 && n_ops == 1 && op_kind == OP_ERASE_AT && op_index == (u64)v, "remove erases exactly that element");
+    }
+  } else if (IN_kind == 2) {
+    if (WHICH == 0) P(ec == 0 && n_ops == 1 && op_kind == OP_INSERT_OR_ASSIGN && op_key_ok, "add on an object inserts or replaces the member named by the exact token");
+    else if (WHICH == 1) { if (IN_has_key) P(ec == E_KEY_EXISTS && n_ops == 0, "add_if_absent on an existing member: key_already_exists, nothing modified"); else P(ec == 0 && n_ops == 1 && op_key_ok, "add_if_absent inserts the member named by the exact token"); }
+    else if (WHICH == 2) { if (IN_has_key) P(ec == 0 && n_ops == 1 && op_kind == OP_INSERT_OR_ASSIGN && op_key_ok, "replace assigns the existing member"); else if (IN_create) P(ec == 0 && n_ops == 1 && op_kind == OP_TRY_EMPLACE && op_key_ok, "replace with create_if_missing inserts"); else P(ec == E_KEY_NOT_FOUND && n_ops == 0, "replace of a missing member: key_not_found, nothing modified"); }
+    else { if (IN_has_key) P(ec == 0 && n_ops == 1 && op_kind == OP_ERASE_KEY && op_key_ok, "remove erases the member named by the exact token"); else P(ec == E_KEY_NOT_FOUND && n_ops == 0, "remove of a missing member: key_not_found, nothing modified"); }
+  } else P(ec == E_EXPECTED_OBJ_OR_ARR && n_ops == 0, "scalar target: expected_object_or_array, nothing modified");
+  WIT(ec == 0 && n_ops == 1 && (N == 0 || IN_kind == 1));
+}
